@@ -7,6 +7,9 @@ it observed, as JSON.  Two uses:
     reads {"items": [...]} on stdin, processes the items in the order given by a
     permutation derived from <order-seed> (so every item is built and rendered after a
     different history in every process), prints {"meta": ..., "results": {id: observation}}.
+  * the same with  --isolated  as second argument: every item is observed in its own forked
+    child of a process that has imported htmltools and built / rendered nothing (the
+    reference for "regardless of what was built or rendered earlier in the process").
   * imported by harness/props/C18.py for the in-process reference run (`observe`).
 
 Everything printed is a digest, a name, a version string or an index: nothing that depends
@@ -20,7 +23,9 @@ Descriptions (JSON; tuples of harness/trees.py arrive as lists):
          | ["G", name, ws, [[key, ["S"|"H", v]]...], [node...]]     Tag, attributes stored as is
          | ["K", name, [dict...], [[key, value]...], [node...]]     Tag(name, *dicts, *kids, **kw)
          | ["C", self_html|null, [node...], as_list]                 object with tagify()
-  item ::= {"id", "kind": "tree", "descs": [node...], "doc_kw": [[k, v]...]}
+  item ::= {"id", "kind": "tree", "descs": [node...], "doc_kw": [[k, v]...],
+            "doc_opts": [[lib_prefix|null, include_version]...]}   (optional: further
+                        HTMLDocument.render(lib_prefix=, include_version=) settings)
          | {"id", "kind": "expr", "name": <key of EXPRS>}
          | {"id", "kind": "text", "text": s, "deps": [payload...], "pattern": s|null}
          | {"id", "kind": "resolve", "deps": [payload...]}
@@ -184,7 +189,7 @@ def dep_row(d) -> list:
     return [d.name, str(d.version), getattr(d, "_verif_id", -1)]
 
 
-def observe_object(mk, doc_kw, raw: bool) -> dict:
+def observe_object(mk, doc_kw, raw: bool, doc_opts=()) -> dict:
     """mk() builds the object (fresh each call).  Everything the property talks about:
     markup digest, dependency order, head_content names, document digest, json-mode digest,
     extraction order."""
@@ -221,6 +226,24 @@ def observe_object(mk, doc_kw, raw: bool) -> dict:
     else:
         out["doc"] = dr
 
+    # the places where dependency URLs are written, under further path settings
+    variants = []
+    for lib_prefix, include_version in doc_opts:
+        def document2():
+            return HTMLDocument(x, **{k: v for k, v in doc_kw}).render(
+                lib_prefix=lib_prefix, include_version=include_version)
+        v = safe(document2)
+        hrefs = safe(lambda: [d.source_path_map(lib_prefix=lib_prefix, include_version=include_version)["href"]
+                              for d in x.render()["dependencies"]])
+        if v[0] == "ok":
+            variants.append([lib_prefix, include_version, ["ok", digest(v[1]["html"])], hrefs])
+            if raw:
+                out.setdefault("_doc_variants_raw", []).append(v[1]["html"])
+        else:
+            variants.append([lib_prefix, include_version, v, hrefs])
+    if doc_opts:
+        out["doc_variants"] = variants
+
     def json_mode():
         old = htmltools.html_dependency_render_mode
         htmltools.html_dependency_render_mode = "json"
@@ -256,7 +279,7 @@ def observe(item: dict, raw: bool = False) -> dict:
             bld = Builder()
             kids = [bld.node(d) for d in item["descs"]]
             return TagList(*kids), bld.hc_log
-        return observe_object(mk, item.get("doc_kw", []), raw)
+        return observe_object(mk, item.get("doc_kw", []), raw, item.get("doc_opts", []))
     if k == "expr":
         def mk2():
             return EXPRS[item["name"]](), []
@@ -297,8 +320,29 @@ def main() -> None:
     perm = list(range(len(items)))
     random.Random(order_seed).shuffle(perm)
     results = {}
+    isolated = len(sys.argv) > 2 and sys.argv[2] == "--isolated"
     for i in perm:
-        results[items[i]["id"]] = observe(items[i])
+        if not isolated:
+            results[items[i]["id"]] = observe(items[i])
+            continue
+        # a child forked from a process that has built and rendered nothing
+        rfd, wfd = os.pipe()
+        pid = os.fork()
+        if pid == 0:
+            code = 0
+            try:
+                os.close(rfd)
+                data = json.dumps(observe(items[i]), ensure_ascii=True).encode()
+                with os.fdopen(wfd, "wb") as w:
+                    w.write(data)
+            except BaseException:  # noqa: BLE001
+                code = 3
+            os._exit(code)
+        os.close(wfd)
+        with os.fdopen(rfd, "rb") as r:
+            data = r.read()
+        _, status = os.waitpid(pid, 0)
+        results[items[i]["id"]] = json.loads(data) if status == 0 and data else {"isolated_child_failed": status}
     meta = {
         "pythonhashseed": os.environ.get("PYTHONHASHSEED"),
         "order_seed": order_seed,
@@ -308,6 +352,7 @@ def main() -> None:
         "hash_probe": hash("c18-probe") & 0xFFFFFFFF,
         "first": items[perm[0]]["id"] if perm else None,
         "mode_after": htmltools.html_dependency_render_mode,
+        "isolated": isolated,
     }
     json.dump({"meta": meta, "results": results}, sys.stdout, ensure_ascii=True)
 
